@@ -6,7 +6,8 @@ package fstree
 //
 // Workload: seeded operation sequences (single Put, concurrent Puts that share one
 // combined file, PutBatch, Delete, hand-seeded zstd files and hand-built combined files
-// with optionally compressed members) over ~20 addresses per configuration.
+// with optionally compressed members) over ~20 addresses per configuration, plus combined
+// files whose member boundaries are aimed at the borders of the readers' windows (opAligned).
 // Oracle: a Go map (address -> bytes last stored), written from the property statement.
 // Every read API must return exactly the model bytes (or the parts of them the API
 // documents) for a stored address and not-found for an absent one; every iteration must
@@ -1368,7 +1369,7 @@ func vf10Configs(r *verifkit.Run) []vf10Cfg {
 func TestVerif_C10(t *testing.T) {
 	r := verifkit.Start(t, "C10", "exploration")
 	defer r.Finish()
-	r.SetRule("one case = one FSTree configuration (depth 0-4 x combined count limit 1/2/8/128 x size limit x threshold x linux/generic writer) with a seeded sequence of put / concurrent puts / PutBatch / delete / seeded zstd file / seeded combined file over 20 addresses (two byte variants each, lengths aimed at 38, NonPayloadFieldsBufferLength, twice that, the combined threshold and size limit, up to 256KiB); after every step all read APIs are compared with a Go map; distinct = (configuration, op kind, on-disk format of the touched address, length class)")
+	r.SetRule("one case = one FSTree configuration (depth 0-4 x combined count limit 1/2/8/128 x size limit x threshold x linux/generic writer) with a seeded sequence of put / concurrent puts / PutBatch / delete / seeded zstd file / seeded combined file over 20 addresses (two byte variants each, lengths aimed at 38, NonPayloadFieldsBufferLength, twice that, the combined threshold and size limit, up to 256KiB), plus, at the start and every 16th step, a border-aligned combined file (hand-built or PutBatch of equal-length members; member lengths computed so that later prefixes start 0..39+ bytes before multiples of the 20480/40960/4096/32768-byte read window) whose members are read and then deleted one by one; after every step all read APIs are compared with a Go map; distinct = (configuration, op kind, on-disk format of the touched address, length class)")
 	r.Assume("an address is never re-put with different bytes while it is stored (content addressing); it may be re-put with other bytes after deletion")
 	all := vf10Configs(r)
 	nCfg := r.Pick(30, len(all))
